@@ -675,7 +675,12 @@ func c15ModelJob(c *lab.Ctx) {
 		{{"k-1", "k.2", "k_3"}, {"k", "k/", "kz"}},
 	}[c.Batch%4]
 	c.Count(fmt.Sprintf("key-alphabet-%v", alpha[0]), 1)
-	u := c15NewUniverse(alpha[0], []string{"x", "y", "z"}, "w", alpha[1], false)
+	// the punctuation alphabet also carries the EMPTY STRING as a value: a host whose metadata has key="" is not a host that lacks the key
+	vals := []string{"x", "y", "z"}
+	if c.Batch%4 == 3 {
+		vals = []string{"x", "", "z"}
+	}
+	u := c15NewUniverse(alpha[0], vals, "w", alpha[1], false)
 	e := c15NewEngine(c, u)
 	total := c.Pick(20320, 203200) // 127 selector sets x 3 policies = 381 systematic combinations, each ~53 / ~533 times
 	nb := c.NBatch
